@@ -13,6 +13,10 @@ import (
 // inBubble runs fn inside a testing/synctest bubble (virtual clock). It returns the message of a panic raised by
 // synctest itself (e.g. "deadlock: all goroutines in bubble are blocked", or blocked goroutines remaining at the end).
 func inBubble(t *testing.T, fn func()) (panicMsg string) {
+	if realClock {
+		fn() // mode M: the same scenario over memnet on the real clock (stall classification, see DESIGN.md §2.2)
+		return ""
+	}
 	defer func() {
 		if r := recover(); r != nil {
 			panicMsg = fmt.Sprint(r)
@@ -50,3 +54,6 @@ func withHooks(h hookSet, fn func()) {
 var curT *testing.T
 
 func setT(t *testing.T) { curT = t }
+
+// realClock switches the rigs to the real clock (no bubble): waits are capped, quiescence is approximated by a short sleep.
+var realClock = envStr("VERIF_REALCLOCK", "") != ""
